@@ -152,4 +152,34 @@ PyParse(d, R, b) ==
   IN IF r.faults # {} THEN [faults |-> r.faults, cls |-> "", val |-> NoneV]
      ELSE LET x == PyDescend(d, R, r.val, 6) IN [faults |-> {}, cls |-> x.cls, val |-> x.val]
 
+(* -------------------------- Java API binding --------------------------- *)
+(* Guide (java): fromBytes on a parent dispatches to the child whose        *)
+(* constraints match (children without constraints are told apart by their  *)
+(* constant size), else to the fallback child that keeps the payload.  The  *)
+(* first match in declaration order wins and an exception ends the parse,   *)
+(* so the admissible outcomes are a *set*: any child that matches and       *)
+(* parses (recursively); when none does, the fallback - or a rejection if   *)
+(* some child's constraints hold but its fields do not parse, or the parent *)
+(* has a _body_ (no fallback class).                                        *)
+ConsHold(d, X, val) ==
+  \A c \in SeqToSet(DeclOf(d, X).cons) : ~ConsViolated(d, Chain(d, X), c, val.n, val.c)
+
+RECURSIVE JavaDescend(_, _, _, _)
+JavaDescend(d, T, val, fuel) ==
+  LET kids == Children(d, T)
+      good == {X \in kids : Down(d, T, X, val).faults = {}}
+      cm == {X \in kids : DeclOf(d, X).cons # <<>> /\ ConsHold(d, X, val)}
+      decl == DeclOf(d, T)
+      bodyOnly == HasPayload(decl) /\ decl.fields[PayloadIndex(decl)].kind = "body"
+      here == [cls |-> T, val |-> val, reject |-> FALSE]
+      rej == [cls |-> "", val |-> NoneV, reject |-> TRUE]
+  IN IF fuel = 0 \/ kids = {} THEN {here}
+     ELSE IF good # {} THEN UNION {JavaDescend(d, X, Down(d, T, X, val).val, fuel - 1) : X \in good}
+     ELSE (IF bodyOnly THEN {} ELSE {here}) \cup (IF cm # {} \/ bodyOnly THEN {rej} ELSE {})
+
+JavaOutcomes(d, R, b) ==
+  LET r == DecodeFull(d, R, b)
+  IN IF r.faults # {} THEN {[cls |-> "", val |-> NoneV, reject |-> TRUE]}
+     ELSE JavaDescend(d, R, r.val, 6)
+
 =============================================================================
